@@ -336,6 +336,81 @@ func genValidTrain(t *rapid.T, recv string) [][]byte {
 	}
 }
 
+// genLengthLie builds aggregation-style payloads whose length fields are off by a
+// little: the classic way a missing or off-by-one bounds check turns into a panic.
+func genLengthLie(t *rapid.T, recv string) []byte {
+	delta := func() int { return rapid.SampledFrom([]int{0, 0, 1, 1, -1, 2, 3, 255, 65535}).Draw(t, "liedelta") }
+	unit := func() []byte { return rapid.SliceOfN(rapid.Byte(), 0, 6).Draw(t, "lieunit") }
+	be16 := func(v int) []byte { return []byte{byte(v >> 8), byte(v)} }
+	k := rapid.IntRange(1, 4).Draw(t, "lieunits")
+	var b []byte
+	switch recv {
+	case "h264", "h264avc", "h264zero", "headcheckers", "opus":
+		b = []byte{0x18 | byte(rapid.IntRange(0, 3).Draw(t, "lienri"))<<5}
+		for i := 0; i < k; i++ {
+			u := unit()
+			d := 0
+			if i == k-1 {
+				d = delta()
+			}
+			b = append(b, be16((len(u)+d)&0xFFFF)...)
+			b = append(b, u...)
+		}
+	case "h265", "h265donl":
+		b = []byte{48 << 1, 1}
+		for i := 0; i < k; i++ {
+			if recv == "h265donl" {
+				if i == 0 {
+					b = append(b, 0, 7)
+				} else {
+					b = append(b, 1)
+				}
+			}
+			u := unit()
+			d := 0
+			if i == k-1 || rapid.IntRange(0, 5).Draw(t, "liemid") == 0 {
+				d = delta()
+			}
+			b = append(b, be16((len(u)+d)&0xFFFF)...)
+			b = append(b, u...)
+		}
+		if rapid.IntRange(0, 3).Draw(t, "liepaci") == 0 {
+			b = []byte{50 << 1, 1, byte(rapid.IntRange(0, 255).Draw(t, "paci0")), byte(rapid.IntRange(0, 255).Draw(t, "paci1"))}
+			b = append(b, unit()...)
+		}
+	case "vp8", "vp9":
+		b = []byte{byte(rapid.SampledFrom([]int{0x80, 0x90, 0xB0, 0xF0, 0xFF, 0x9A, 0xB2, 0xBA}).Draw(t, "lied0"))}
+		b = append(b, rapid.SliceOfN(rapid.SampledFrom([]uint8{0x80, 0xFF, 0x81, 0x01, 0x00, 0xF8, 0x18, 0x0C, 0x7F}), 0, 10).Draw(t, "liedesc")...)
+	default: // av1
+		w := rapid.IntRange(0, 3).Draw(t, "liew")
+		b = []byte{byte(rapid.SampledFrom([]int{0, 0x80, 0x40, 0xC0, 0x08}).Draw(t, "liezy")) | byte(w)<<4}
+		for i := 0; i < k; i++ {
+			u := unit()
+			if len(u) > 0 && rapid.IntRange(0, 1).Draw(t, "liehdr") == 0 {
+				u[0] = rapid.SampledFrom([]uint8{0x0A, 0x32, 0x30, 0x12, 0x16, 0x06, 0x04}).Draw(t, "lieobu")
+			}
+			d := 0
+			if i == k-1 {
+				d = delta()
+			}
+			if !(w != 0 && i == w-1) {
+				v := len(u) + d
+				if v < 0 {
+					v = 0
+				}
+				if v < 128 {
+					b = append(b, byte(v))
+				} else {
+					b = append(b, byte(v)|0x80, byte(v>>7))
+				}
+			}
+			b = append(b, u...)
+		}
+	}
+
+	return b
+}
+
 func genDepCase(t *rapid.T) *DepCase {
 	c := &DepCase{Receiver: rapid.SampledFrom(c09Receivers).Draw(t, "receiver")}
 	var pool [][]byte
@@ -348,6 +423,8 @@ func genDepCase(t *rapid.T) *DepCase {
 			st.Data = []byte{}
 		case 2:
 			st.Data = rapid.SliceOfN(rapid.Byte(), 1, 60).Draw(t, "rand")
+		case 3:
+			st.Data = genLengthLie(t, c.Receiver)
 		default:
 			if len(pool) == 0 || rapid.IntRange(0, 2).Draw(t, "newtrain") == 0 {
 				pool = append(pool, genValidTrain(t, c.Receiver)...)
